@@ -13,6 +13,7 @@ macro "paths" h:ident : tactic => `(tactic| (
   all_goals first
     | (simp at $h:ident; done)
     | (exfalso; exact ‹∀ _, some _ = some _ → False› _ rfl)
+    | (exfalso; exact absurd ‹throw _ = Except.ok _› (by simp))
     | skip ))
 
 /-- result of `assignTo` -/
@@ -173,6 +174,52 @@ def attachS (s : State) (o : Nat) (op : Op) : State :=
 
 def leaveS (s : State) (c : Nat) (st : Stream) (op : Op) (code : Nat) : State :=
   emit (maybeStartCleanup ((dropStream s c).setOp { op with waiters := op.waiters - 1 }) st.op) (.ret c code)
+
+/-! ### pieces of `execArrive` -/
+
+/-- a further operation (other invocation) on an in-flight task -/
+def addOpS (s : State) (tid : Nat) (t : Task) (inv : List Nat) (prio : Int) : State :=
+  ({ s with nextOp := s.nextOp + 1 }.setOp
+      { name := s.nextOp, task := tid, inv := inv, prio := prio, waiters := 0, mayExistWithoutWaiters := false }).setTask
+    { t with ops := t.ops ++ [s.nextOp] }
+
+def newTask (s : State) (digest dkey : Nat) (dnc : Bool) (q : ScqId) : Task :=
+  { id := s.nextTask, digest := digest, dkey := dkey, doNotCache := dnc, scq := q, ops := [s.nextOp], worker := none,
+    retry := 0, response := none, gen := 0, learner := some s.nextLearner, background := false, queued := false }
+
+def newOp (s : State) (inv : List Nat) (prio : Int) : Op :=
+  { name := s.nextOp, task := s.nextTask, inv := inv, prio := prio, waiters := 0, mayExistWithoutWaiters := false }
+
+/-- the state after `Execute` created a task and its first operation -/
+def newTaskS (s : State) (digest dkey : Nat) (dnc : Bool) (q : ScqId) (inv : List Nat) (prio : Int) : State :=
+  ((if dnc then
+      { (emit { s with nextLearner := s.nextLearner + 1 } (.selSelect s.nextLearner)) with
+        nextTask := s.nextTask + 1, nextOp := s.nextOp + 1 }
+    else
+      { (emit { s with nextLearner := s.nextLearner + 1 } (.selSelect s.nextLearner)) with
+        nextTask := s.nextTask + 1, nextOp := s.nextOp + 1, dedup := aset dkey s.nextTask s.dedup }).setTask
+    (newTask s digest dkey dnc q)).setOp (newOp s inv prio)
+
+/-! ### pieces of the worker functions -/
+
+def parkS (s : State) (wk : Worker) : State :=
+  s.setWorker { wk with parked := true, woken := false, timer := some (wk.timer.getD (s.now + s.cfg.idleInterval)) }
+
+def drainWaitS (s : State) (wk : Worker) (sq : Scq) : State :=
+  s.setWorker { wk with drainWait := some sq.undrainGen, timer := some (wk.timer.getD (s.now + s.cfg.idleInterval)) }
+
+def addScq (s : State) (q : ScqId) : State :=
+  { s with scqs := s.scqs ++ [{ id := q, mayBeRemoved := true, drains := [], undrainGen := 0 }] }
+
+def addPqScq (s : State) (q : ScqId) (comps : List Nat) (platform : Nat) : State :=
+  { s with pqs := s.pqs ++ [{ id := q.pq, comps := comps, platform := platform, bgMax := 0, bgPrio := 0 }],
+           scqs := s.scqs ++ [{ id := q, mayBeRemoved := true, drains := [], undrainGen := 0 }] }
+
+def addWorker (s : State) (q : ScqId) (w : WId) : State :=
+  { s with workers := s.workers ++ [{ scq := q, id := w, task := none, terminating := false, parked := false, woken := false, inSync := true, drainWait := none, timer := none }] }
+
+def addTerm (s : State) (tc : TermCall) : State := { s with terms := tc :: s.terms }
+def dropTerm (s : State) (id : Nat) : State := { s with terms := s.terms.filter (fun t => t.id ≠ id) }
 
 /-- `complete` restated: lookup, COMPLETED short-cut, detach prefix, three-way split. -/
 theorem complete_eq (h : Hints) (s : State) (tid : Nat) (r : Resp) (bw : Bool) :
